@@ -6,6 +6,7 @@ package main
 import (
 	"fmt"
 	"math/rand"
+	"os"
 	"runtime/debug"
 	"sort"
 	"strings"
@@ -78,6 +79,7 @@ type pathResult struct {
 	panicOutcome string
 	p            *path
 	model        map[string]any
+	modelObs     []obsRec
 }
 
 type HarnessResult struct {
@@ -101,6 +103,7 @@ type HarnessResult struct {
 	EnvChoices   int
 	Truncated    bool
 	PathModels   []map[string]any
+	PathModelObs [][]obsRec // observations of the sampled symbolic paths evaluated under their model
 }
 
 type RunConfig struct {
@@ -192,6 +195,9 @@ func (e *Engine) RunHarness(fn *ssa.Function, cfg RunConfig) *HarnessResult {
 			mu.Unlock()
 
 			pr := e.runPath(fn, prefix, sol, cfg)
+			if os.Getenv("VERIF_PATHLOG") != "" {
+				fmt.Fprintf(os.Stderr, "path prefix=%v outcome=%s %s decisions=%v forks=%d obs=%v\n", prefix, pr.outcome, pr.reason, pr.p.decisions, len(pr.forks), pr.p.observes)
+			}
 
 			mu.Lock()
 			active--
@@ -213,8 +219,10 @@ func (e *Engine) RunHarness(fn *ssa.Function, cfg RunConfig) *HarnessResult {
 				modelsSeen++
 				if len(res.PathModels) < cfg.SampleModels {
 					res.PathModels = append(res.PathModels, pr.model)
+					res.PathModelObs = append(res.PathModelObs, pr.modelObs)
 				} else if j := rng.Intn(modelsSeen); j < cfg.SampleModels {
 					res.PathModels[j] = pr.model
+					res.PathModelObs[j] = pr.modelObs
 				}
 			}
 			for k, v := range pr.assertsOK {
@@ -356,6 +364,9 @@ func (e *Engine) runPath(fn *ssa.Function, prefix []int, sol *Solver, cfg RunCon
 	if cfg.SampleModels > 0 && cfg.wantSample != nil && cfg.wantSample() {
 		if r, m := sol.Check(purposeWitness, true, p.allVars()); r == "sat" {
 			pr.model = p.modelToInputs(m)
+			for _, o := range p.observesRaw {
+				pr.modelObs = append(pr.modelObs, obsRec{o.label, p.renderUnder(o.v, m)})
+			}
 		}
 	}
 	return pr
@@ -387,6 +398,7 @@ type path struct {
 	assertsFold map[string]int
 	reached     map[string]int
 	observes    []obsRec
+	observesRaw []rawObs
 	failed      []string
 	funcs       map[string]bool
 	stubs       map[string]bool
@@ -406,6 +418,11 @@ type path struct {
 	permUsed   bool
 	lastBranch bool
 	pins       map[*Term]int64
+}
+
+type rawObs struct {
+	label string
+	v     value
 }
 
 type knownRec struct {
